@@ -631,3 +631,27 @@ def half_built_calls(ctx, transform, texts, label):
             continue
         if _ast.dump(got) != _ast.dump(want):
             ctx.violation("calls-built-without-keywords-transformed-differently", f"{label}: {text}: {_ast.unparse(got)[:160]} instead of {_ast.unparse(want)[:160]}", {"half_built": True})
+
+
+def handler_named_functions():
+    """the transformers built on FuncADLNodeTransformer hand a call of a plain name X to their method call_X, whatever X is: every
+    attribute of those classes whose name starts with call_ is, to them, a function of the query language. The documented ones are
+    the operators; any OTHER such attribute (a helper method somebody called call_something) turns a user function of that name
+    into something the transformer rewrites. Returns the names that are no documented operator (none, on a tree that is right)"""
+    from func_adl.ast.func_adl_ast_utils import FuncADLNodeTransformer, FuncADLNodeVisitor
+    from func_adl.ast.function_simplifier import simplify_chained_calls
+    from func_adl.ast.meta_data import _extract_metadata
+
+    documented = {"Select", "SelectMany", "Where", "First", "Count", "MetaData", "Aggregate", "Zip", "Min", "Max", "Sum", "len"}
+    names = set()
+    for cls in (FuncADLNodeTransformer, FuncADLNodeVisitor, simplify_chained_calls, _extract_metadata):
+        for n in dir(cls):
+            if n.startswith("call_") and n[5:] and n[5:] not in documented:
+                names.add(n[5:])
+    return sorted(names)
+
+
+HANDLER_NAME_TEMPLATES = [
+    "Select(EventDataset(), lambda e: {X}(e.x, e.y))", "Select(EventDataset(), lambda e: {X}(e.x, k=e.y))", "Select(EventDataset(), lambda e: {X}(e.x))",
+    "Select(EventDataset(), lambda e: g({X}(MetaData(e.jets, {{'k': 1}})), e.n))", "Select(EventDataset(), lambda e: {X}(e.x, lambda j: j.pt))", "Select(EventDataset(), lambda e: {X}())",
+]
